@@ -2,6 +2,8 @@ import FrappyProofs.Lemmas.CompatComplete
 import FrappyProofs.Lemmas.CompatLawsRat
 import FrappyProofs.Lemmas.CopyHeap
 import FrappyProofs.Lemmas.DatainfoOpt
+import FrappyProofs.Lemmas.DatainfoSnap
+import FrappyProofs.Lemmas.CommandInfo
 import FrappyProofs.Lemmas.Variants
 import FrappyProofs.Lemmas.CompatRefl
 import FrappyModel.Generated.C03
@@ -58,6 +60,99 @@ theorem copy_equiv (D : Consts F) (hD : D.OK) (dt : DInfo F) (hwf : dt.WF D)
       (∀ v prev, validate dt'.erase v prev = validate dt.erase v prev) ∧
       (∀ w, importValue dt'.erase w = importValue dt.erase w) ∧ (∀ v, call dt'.erase v = call dt.erase v) :=
   ⟨dt, copy_core D hD constsOK2 dt hwf hex, rfl, fun _ _ => rfl, fun _ => rfl, fun _ => rfl⟩
+
+/-- the description of a scaled integer says where its limits are: the integers exported as `min` / `max`
+(`int(round(limit / scale))`) are grid indices whose grid values `index * scale` — what `get_datatype` and
+`copy()` hand to the constructor — are the limits themselves, whatever side of the whole number the float
+quotient `limit / scale` lands on (`Aligned` is a statement about `round`, not about the quotient) -/
+theorem scaled_description_exact (D : Consts F) (s mn mx ar rr : F) (u f : String)
+    (hmn : DInfo.Aligned s mn) (hmx : DInfo.Aligned s mx) :
+    ∃ kmin kmax fields, exportDatatype D (.scaled s mn mx ar rr u f) = .ok (.obj fields) ∧
+      PVal.dictGet fields "min" = some (.int kmin) ∧ PVal.dictGet fields "max" = some (.int kmax) ∧
+      DType.ofGrid s kmin = some mn ∧ DType.ofGrid s kmax = some mx := by
+  obtain ⟨kmin, ymin, g1, o1, e1⟩ := aligned_iff hmn
+  obtain ⟨kmax, ymax, g2, o2, e2⟩ := aligned_iff hmx
+  refine ⟨kmin, kmax, _, by rw [exportDatatype, g1, g2], ?_, ?_, ?_, ?_⟩
+  · simp [dictGet_append, dictGet_optField, dictGet_cons, dictGet_scaledAbsRes_ne]
+  · simp [dictGet_append, dictGet_optField, dictGet_cons, dictGet_scaledAbsRes_ne]
+  · simp [DType.ofGrid, o1, e1]
+  · simp [DType.ofGrid, o2, e2]
+
+/-- … and only then: when the exported `min` (`max`) denotes the limit, the limit is grid aligned.  So
+"grid-aligned limits" in the quantifier of the property is exactly the condition under which the description
+can be faithful; any other limit is moved to its nearest grid value by the round trip (`rebuild_snaps`). -/
+theorem scaled_description_exact_only_if (D : Consts F) (s mn mx ar rr : F) (u f : String)
+    (fields : List (String × JVal F)) (kmin kmax : Int)
+    (hex : exportDatatype D (.scaled s mn mx ar rr u f) = .ok (.obj fields))
+    (h1 : PVal.dictGet fields "min" = some (.int kmin)) (h2 : PVal.dictGet fields "max" = some (.int kmax))
+    (g1 : DType.ofGrid s kmin = some mn) (g2 : DType.ofGrid s kmax = some mx) :
+    DInfo.Aligned s mn ∧ DInfo.Aligned s mx := by
+  rw [exportDatatype] at hex
+  split at hex
+  · rename_i k1 k2 e1 e2
+    injection hex with hex
+    injection hex with hex
+    subst hex
+    simp [dictGet_append, dictGet_optField, dictGet_cons, dictGet_scaledAbsRes_ne] at h1 h2
+    subst h1 h2
+    exact ⟨by simp [DInfo.Aligned, DType.snap, e1, g1], by simp [DInfo.Aligned, DType.snap, e2, g2]⟩
+  · cases hex
+
+/-- scaled limits that are NOT grid aligned (outside the quantifier of the property; `checkProperties` has the remark
+"Datatype.copy() will round min, max to a multiple of self.scale"): for EVERY well-formed tree whose limits have finite
+grid values, the tree `dt'` with the limits moved to their grid values is well formed and grid aligned, has the
+identical description, and the type rebuilt from the description of `dt` exports that description again and validates /
+imports exactly like `dt'`.  So the description is a fixed point of the round trip for every tree, and what the
+round trip changes is exactly `snapLimits`.  Carrier: `GridStable` (`round((k*scale)/scale) = k`). -/
+theorem rebuild_snaps (hG : GridStable F) (D : Consts F) (hD : D.OK) (dt dt' : DInfo F) (hwf : dt.WF D)
+    (hs : DInfo.snapLimits dt = some dt') :
+    dt'.WF D ∧ dt'.Exportable ∧
+    ∃ j dt'', exportDatatype D dt = .ok j ∧ exportDatatype D dt' = .ok j ∧ getDatatype D j = .ok dt'' ∧
+      exportDatatype D dt'' = .ok j ∧
+      (∀ v prev, validate dt''.erase v prev = validate dt'.erase v prev) ∧
+      (∀ w, importValue dt''.erase w = importValue dt'.erase w) := by
+  obtain ⟨w, x, ex⟩ := snapLimits_spec hG D dt dt' hwf hs
+  obtain ⟨j, dt'', h1, h2, h3, h4, h5⟩ := rebuild_equiv D hD dt' w x
+  exact ⟨w, x, j, dt'', by rw [← ex]; exact h1, h1, h2, h3, h4, h5⟩
+
+/-- … and `copy()` of any such tree IS the tree with the limits moved to their grid values -/
+theorem copy_snaps (hG : GridStable F) (D : Consts F) (hD : D.OK) (dt dt' : DInfo F) (hwf : dt.WF D)
+    (hs : DInfo.snapLimits dt = some dt') : copy D dt = .ok dt' :=
+  copy_snap_gen hG D hD constsOK2 dt dt' hwf hs
+
+/-- for a grid-aligned tree nothing moves (`rebuild_snaps` / `copy_snaps` specialise to `rebuild_equiv` / `copy_equiv`) -/
+theorem snapLimits_aligned (D : Consts F) (dt : DInfo F) (hwf : dt.WF D) (hex : dt.Exportable) :
+    DInfo.snapLimits dt = some dt :=
+  snapLimits_of_exportable D dt hwf hex
+
+/-- the monitors' test "is this tree in the quantifier" is the hypothesis `Exportable` of the theorems -/
+theorem exportableB_iff_exportable (dt : DInfo F) : dt.exportableB = true ↔ dt.Exportable :=
+  exportableB_iff dt
+
+/-- commands: the description of a `CommandType` whose argument / result are well-formed exportable trees (or `None`)
+is rebuilt by `get_datatype` — and `CommandType.copy()`, which is the inherited `DataType.copy`, gives the very same
+command — into a command that exports the identical description again, has an argument / a result exactly where the
+original has one, and whose argument and result validate / import like the original's. -/
+theorem command_rebuild_equiv (D : Consts F) (hD : D.OK) (c : CmdInfo F)
+    (hwf : ∀ t, c.argument = some t ∨ c.result = some t → t.WF D ∧ t.Exportable) :
+    ∃ j c', exportCommand D c = .ok j ∧ getCommand D j = .ok c' ∧ copyCommand D c = .ok c' ∧
+      exportCommand D c' = .ok j ∧ SameOpt c'.argument c.argument ∧ SameOpt c'.result c.result := by
+  have comp : ∀ x : Option (DInfo F), (∀ t, x = some t → t.WF D ∧ t.Exportable) →
+      ∃ jx x', OptRebuilt D x jx x' := by
+    intro x hx
+    cases x with
+    | none => exact ⟨none, none, optRebuilt_none D⟩
+    | some t =>
+      obtain ⟨w, e⟩ := hx t rfl
+      obtain ⟨j, t', h1, h2, h3, h4, h5⟩ := rebuild_equiv D hD t w e
+      exact ⟨some j, some t', optRebuilt_some D h1 h2 h3 h4 h5⟩
+  obtain ⟨ja, a', ea, ga, ea', sa⟩ := comp c.argument (fun t h => hwf t (Or.inl h))
+  obtain ⟨jr, r', er, gr, er', sr⟩ := comp c.result (fun t h => hwf t (Or.inr h))
+  have hex : exportCommand D c =
+      .ok (.obj ([("type", .str "command")] ++ optItem "argument" ja ++ optItem "result" jr)) := by
+    simp only [exportCommand, ea, er]
+  have hget := getCommand_export D ga gr
+  exact ⟨_, ⟨a', r'⟩, hex, hget, by simp only [copyCommand, hex, hget], by simp only [exportCommand, ea', er'], sa, sr⟩
 
 /-! ## compatibility verdicts -/
 
@@ -416,6 +511,40 @@ example : ∃ (a b : DType Rat), a.WF ∧ b.WF ∧ GridAligned a ∧ GridAligned
     compatible a b = .ok () ∧ InSet a (.int 2) :=
   ⟨.int 1 2, .enum [("a", 1), ("b", 2)], by simp [DType.WF, DType.intLimit], by simp [DType.WF, DType.namesOK],
     trivial, trivial, trivial, trivial, rfl, by simp [InSet, InSetG]⟩
+
+/-- `scaled_description_exact` applies to `ScaledInteger(0.1, -0.3, 0.7)` (over the exact carrier): the description says
+`min = -3`, `max = 7` -/
+example : DInfo.Aligned (1/10 : Rat) (-3/10) ∧ DInfo.Aligned (1/10 : Rat) (7/10) ∧
+    DType.gridIndex (1/10 : Rat) (-3/10) = some (-3) ∧ DType.gridIndex (1/10 : Rat) (7/10) = some 7 := by
+  refine ⟨?_, ?_, ?_, ?_⟩
+  · unfold DInfo.Aligned; decide +kernel
+  · unfold DInfo.Aligned; decide +kernel
+  · decide +kernel
+  · decide +kernel
+
+/-- `rebuild_snaps` / `copy_snaps` apply to `ArrayOf(ScaledInteger(0.1, -0.26, 0.74), 0, 3)` over the exact carrier
+(which is `GridStable`): the limits move to `-0.3` and `0.7` -/
+example : GridStable Rat ∧
+    DInfo.snapLimits (.array (.scaled (1/10 : Rat) (-26/100) (74/100) (1/10) 0 "" "%g") 0 3) =
+      some (.array (.scaled (1/10 : Rat) (-3/10) (7/10) (1/10) 0 "" "%g") 0 3) ∧
+    ¬ DInfo.Aligned (1/10 : Rat) (74/100) := by
+  have h1 : DType.snap (1/10 : Rat) (-26/100) = some (-3/10) := by decide +kernel
+  have h2 : DType.snap (1/10 : Rat) (74/100) = some (7/10) := by decide +kernel
+  have f1 : isFinite (-3/10 : Rat) = true := by decide +kernel
+  have f2 : isFinite (7/10 : Rat) = true := by decide +kernel
+  exact ⟨rat_gridStable, by simp [DInfo.snapLimits, h1, h2, f1, f2], by unfold DInfo.Aligned; decide +kernel⟩
+
+/-- the hypothesis of `command_rebuild_equiv` is met by `CommandType(IntRange(1, 2), BoolType())` and by `CommandType()` -/
+example : (∀ t, (⟨some (.int 1 2), some .bool⟩ : CmdInfo Rat).argument = some t ∨
+      (⟨some (.int 1 2), some .bool⟩ : CmdInfo Rat).result = some t → t.WF ⟨0, 0, 0⟩ ∧ t.Exportable) ∧
+    (∀ t, (⟨none, none⟩ : CmdInfo Rat).argument = some t ∨ (⟨none, none⟩ : CmdInfo Rat).result = some t →
+      t.WF ⟨0, 0, 0⟩ ∧ t.Exportable) := by
+  refine ⟨?_, ?_⟩
+  · intro t h
+    rcases h with h | h <;> simp only [Option.some.injEq] at h <;> subst h <;>
+      simp [DInfo.WF, DType.WF, DType.intLimit, DInfo.Exportable]
+  · intro t h
+    rcases h with h | h <;> cases h
 
 /-- … and `compatible_complete` applies to a container pair with nested members -/
 example : ∃ (a b : DType Rat), a.WF ∧ b.WF ∧ GridAligned a ∧ GridAligned b ∧ Nested a b :=
